@@ -4,8 +4,10 @@ import (
 	"encoding/hex"
 	"encoding/json"
 	"math/rand"
+	"runtime"
 	"strings"
 	"sync"
+	"sync/atomic"
 
 	"polyverif/blake3ref"
 
@@ -169,7 +171,13 @@ func c04Record(tier string, seed int64, emit func(interface{}), prop string) {
 		}
 		return s
 	}
+	var nHash int64
 	hash := func(s, t string, c, d bool) string {
+		// every third call runs on ONE processor: whatever goroutines the library starts internally are then scheduled
+		// after their creator moves on (the other extreme from 16 idle cores picking them up at once)
+		if atomic.AddInt64(&nHash, 1)%3 == 0 || len(s) > 200000 {
+			defer runtime.GOMAXPROCS(runtime.GOMAXPROCS(1))
+		}
 		h, err := seqhash.Hash(s, t, c, d)
 		if err != nil {
 			return "error: " + err.Error()
@@ -183,6 +191,13 @@ func c04Record(tier string, seed int64, emit func(interface{}), prop string) {
 			for _, rel := range []string{"rot", "rc", "rotrc", "case", "rna"} {
 				rna := rel == "rna" || rng.Intn(4) == 0
 				a := gen(maxLen, rna)
+				huge := (i == 1 || i == 3 || i == 5) && (rel == "rc" || rel == "rotrc")
+				if huge { // a bacterial-chromosome-sized ring, both strands: beyond 2^18 bases
+					a = gen(263000+rng.Intn(40000), rna)
+					for len(a) < 263000 {
+						a += a
+					}
+				}
 				typ := "DNA"
 				if rna {
 					typ = "RNA"
@@ -198,6 +213,9 @@ func c04Record(tier string, seed int64, emit func(interface{}), prop string) {
 					b = a[off:] + a[:off]
 				case "rc":
 					ds = true
+					if huge {
+						circ = true
+					}
 					b = rcIUPAC(a)
 				case "rotrc":
 					circ, ds = true, true
@@ -210,7 +228,7 @@ func c04Record(tier string, seed int64, emit func(interface{}), prop string) {
 					b = strings.ReplaceAll(strings.ReplaceAll(a, "U", "T"), "u", "t")
 				}
 				var ha, hb string
-				if i%2 == 0 {
+				if i%2 == 0 || len(a) > 200000 {
 					ha, hb = hash(a, typ, circ, ds), hash(b, typb, circ, ds)
 				} else {
 					// the two calls run at the same time, together with a repeat of an earlier call: the function is
